@@ -19,12 +19,13 @@ STUBS = [
     'node holding a symbolic integer, every other text goes to the real parser',
     'packaging.version in model and required_language: parse() of a designated token yields a symbolic (major, minor, '
     'patch, pre-release) tuple compared lexicographically; other text goes to the real parser first',
+    'IntelHex in pretty_printer.intelhex -> recorder of the (address, bytes) calls',
     'process-global state reset per path: LabelScope._global_scope, InstructionLine._INSTRUCTUION_EXTRACTION_PATTERN, '
     'AssemblyFile.load_line_objects default set',
 ]
 
 _installed = False
-capture = {'opens': [], 'writes': {}, 'stdout': []}
+capture = {'opens': [], 'writes': {}, 'stdout': [], 'intelhex': []}
 _config_provider = {'fn': None}
 _cond_symbols = {'map': {}}
 _originals = {}
@@ -60,6 +61,19 @@ class _Click:
 
 def _print(*a, **k):
     capture['stdout'].append(' '.join(str(x) for x in a))
+
+
+class _IntelHexRecorder:
+    """stand-in for intelhex.IntelHex: records what the printer hands over (the third-party writer is not analysed)"""
+
+    def puts(self, addr, data):
+        capture['intelhex'].append((addr, list(getattr(data, 'd', data))))
+
+    def write_hex_file(self, f):
+        f.write('<intel hex written by the third-party library>')
+
+    def dump(self, tofile=None):
+        tofile.write('<hex dump written by the third-party library>')
 
 
 class _Yaml:
@@ -121,6 +135,8 @@ def install():
     model.version = _VersionStub
     import bespokeasm.assembler.line_object.preprocessor_line.required_language as rl
     rl.version = _VersionStub
+    import bespokeasm.assembler.pretty_printer.intelhex as ih
+    ih.IntelHex = _IntelHexRecorder
     import bespokeasm.assembler.preprocessor.condition as cond
     cond.parse_expression = _cond_parse_expression
     _installed = True
@@ -252,3 +268,5 @@ def reset_globals():
     capture['opens'] = []
     capture['writes'] = {}
     capture['stdout'] = []
+    capture['intelhex'] = []
+    E.reset_fmt_registry()
